@@ -123,7 +123,15 @@ def names_of_module(tree) -> dict:
     for q, f, _ in func_quals(tree):
         funcs[q] = sorted(local_names(f))
         kws[q] = sorted(keyword_uses(f))
-    return {'consts': sorted(consts), 'funcs': funcs, 'kws': kws}
+    cconsts = {}
+    for node in tree.body:
+        if isinstance(node, ast.ClassDef):
+            names = set()
+            for st in node.body:
+                for t in (st.targets if isinstance(st, ast.Assign) else [st.target] if isinstance(st, ast.AnnAssign) else []):
+                    names |= {n.id for n in ast.walk(t) if isinstance(n, ast.Name)}
+            cconsts[node.name] = sorted(names)
+    return {'consts': sorted(consts), 'funcs': funcs, 'kws': kws, 'class_consts': cconsts}
 
 
 def keyword_uses(func) -> set:
@@ -332,6 +340,82 @@ def _split_tuple_assign(st):
     return [ast.copy_location(ast.Assign(targets=[t_], value=e_, lineno=st.lineno), st) for t_, e_ in zip(st.targets[0].elts, st.value.elts)]
 
 
+def _const_truth(e):
+    """True/False when the test is decided by constants alone (after a constant argument was substituted), else None"""
+    if isinstance(e, ast.Constant):
+        return bool(e.value)
+    if isinstance(e, ast.UnaryOp) and isinstance(e.op, ast.Not):
+        v = _const_truth(e.operand)
+        return None if v is None else (not v)
+    if isinstance(e, ast.Compare) and len(e.ops) == 1 and isinstance(e.left, ast.Constant) and isinstance(e.comparators[0], ast.Constant):
+        a, b, op = e.left.value, e.comparators[0].value, e.ops[0]
+        try:
+            if isinstance(op, ast.Eq):
+                return a == b
+            if isinstance(op, ast.NotEq):
+                return a != b
+            if isinstance(op, ast.Is):
+                return a is b if (a is None or b is None or isinstance(a, bool) or isinstance(b, bool)) else None
+            if isinstance(op, ast.IsNot):
+                return a is not b if (a is None or b is None or isinstance(a, bool) or isinstance(b, bool)) else None
+            if isinstance(op, ast.Lt):
+                return a < b
+            if isinstance(op, ast.LtE):
+                return a <= b
+            if isinstance(op, ast.Gt):
+                return a > b
+            if isinstance(op, ast.GtE):
+                return a >= b
+            if isinstance(op, ast.In):
+                return a in b
+            if isinstance(op, ast.NotIn):
+                return a not in b
+        except TypeError:
+            return None
+    if isinstance(e, ast.BoolOp):
+        vals = [_const_truth(v) for v in e.values]
+        if isinstance(e.op, ast.And):
+            if any(v is False for v in vals):
+                return False
+            if all(v is True for v in vals):
+                return True
+        else:
+            if any(v is True for v in vals):
+                return True
+            if all(v is False for v in vals):
+                return False
+    return None
+
+
+def _prune_constant_tests(stmts):
+    out = []
+    for st in stmts:
+        if isinstance(st, ast.If):
+            t = _const_truth(st.test)
+            if t is True:
+                out.extend(_prune_constant_tests(st.body))
+                continue
+            if t is False:
+                out.extend(_prune_constant_tests(st.orelse))
+                continue
+            st.body = _prune_constant_tests(st.body) or [ast.copy_location(ast.Pass(), st)]
+            st.orelse = _prune_constant_tests(st.orelse)
+        elif isinstance(st, (ast.For, ast.While, ast.With)):
+            st.body = _prune_constant_tests(st.body) or [ast.copy_location(ast.Pass(), st)]
+        out.append(st)
+
+    class T(ast.NodeTransformer):
+        def visit_IfExp(self, node):
+            self.generic_visit(node)
+            t = _const_truth(node.test)
+            if t is True:
+                return node.body
+            if t is False:
+                return node.orelse
+            return node
+    return [T().visit(x) for x in out]
+
+
 class _Rename(ast.NodeTransformer):
     def __init__(self, ren, subst):
         self.ren = ren          # name -> new name
@@ -447,6 +531,7 @@ class Normaliser:
         self._collect()
         for path in sorted(self.modules):
             self._constants(path)
+        self._class_constants()
         for path in sorted(self.modules):
             tree = self.modules[path].tree
             for q, f, cls in list(func_quals(tree)):
@@ -553,6 +638,46 @@ class Normaliser:
                     if isinstance(st, (ast.Assign, ast.AnnAssign)) and st.value is not None:
                         st.value = _Rename({}, consts).visit(st.value)
         self.log.append(f'N1 {path}: propagated new module constants {sorted(consts)}')
+
+    def _class_constants(self):
+        """N1 for new class-level constants: `self.NAME` / `Cls.NAME` loads are replaced by the constant expression when
+        no attribute of that name is stored anywhere in the package and the name is defined once"""
+        cands = {}
+        for path, mod in self.modules.items():
+            bm = self.base.get(path, {}).get('class_consts')
+            for node in mod.tree.body:
+                if not isinstance(node, ast.ClassDef):
+                    continue
+                known = set(bm.get(node.name, ())) if (bm is not None and node.name in bm) else (set() if bm is not None else None)
+                if known is None:
+                    continue
+                for st in node.body:
+                    if isinstance(st, ast.Assign) and len(st.targets) == 1 and isinstance(st.targets[0], ast.Name) \
+                            and st.targets[0].id not in known and is_const_expr(st.value):
+                        cands.setdefault(st.targets[0].id, []).append((path, node.name, st.value))
+        cands = {k: v[0] for k, v in cands.items() if len(v) == 1}
+        if not cands:
+            return
+        for mod in self.modules.values():
+            for n in ast.walk(mod.tree):
+                if isinstance(n, ast.Attribute) and isinstance(n.ctx, (ast.Store, ast.Del)) and n.attr in cands:
+                    cands.pop(n.attr, None)
+                elif isinstance(n, ast.FunctionDef) and n.name in cands:
+                    cands.pop(n.name, None)
+        if not cands:
+            return
+
+        class T(ast.NodeTransformer):
+            def visit_Attribute(self, node):
+                self.generic_visit(node)
+                if isinstance(node.ctx, ast.Load) and node.attr in cands and isinstance(node.value, ast.Name):
+                    return ast.copy_location(copy.deepcopy(cands[node.attr][2]), node)
+                return node
+        for path, mod in self.modules.items():
+            for q, f, cls in func_quals(mod.tree):
+                if any(isinstance(n, ast.Attribute) and n.attr in cands for n in ast.walk(f)):
+                    T().visit(f)
+        self.log.append(f'N1 propagated new class-level constants {sorted(cands)}')
 
     # ---------------------------------------------------------------- N2/N3 inlining
     def _function(self, path, qual, func, cls):
@@ -769,6 +894,7 @@ class Normaliser:
                 if inner & (set(subst) | argnames):
                     return node
                 new = _Rename({}, subst).visit(copy.deepcopy(expr))
+                new = _prune_constant_tests([ast.Expr(value=new)])[0].value
                 if helper.path != fctx['path']:
                     for n in ast.walk(new):
                         if hasattr(n, 'end_lineno'):
@@ -848,6 +974,7 @@ class Normaliser:
                 for n in ast.walk(s):
                     if hasattr(n, 'end_lineno'):
                         n.end_lineno = None
+        flat = _prune_constant_tests(flat)
         self.log.append(f'N2 {fctx["path"]}::{fctx["qual"]}: call to new helper {helper.qual} inlined ({len(flat)} statement(s))')
         ret = ast.copy_location(ast.Name(id=retname, ctx=ast.Load()), call) if retname else None
         return temps + flat, ret
@@ -1020,7 +1147,8 @@ class Normaliser:
         self._fold_new_locals(path, qual, func, known | params)
         before = len(self.log)
         for _ in range(80):
-            if not (self._forward_once(path, qual, func, known) or self._coalesce_once(path, qual, func, known | params)):
+            if not (self._forward_once(path, qual, func, known) or self._coalesce_once(path, qual, func, known | params)
+                    or self._coalesce_copy_in(path, qual, func, known | params)):
                 break
         if len(self.log) > before:
             self._fold_attr_strings(func)
@@ -1067,6 +1195,34 @@ class Normaliser:
                 del blk[j]
                 self.log.append(f'N4 {path}::{qual}: new local {t} coalesced into {x}')
                 return True
+        return False
+
+    def _coalesce_copy_in(self, path, qual, func, known) -> bool:
+        """t = x  (t a new local, x a name that is never used afterwards, statement at the top level of the function)
+        ->  the following statements use x directly"""
+        blk = func.body
+        for i, s in enumerate(blk):
+            if not (isinstance(s, ast.Assign) and len(s.targets) == 1 and isinstance(s.targets[0], ast.Name) and isinstance(s.value, ast.Name)):
+                continue
+            t, x = s.targets[0].id, s.value.id
+            if t in known or t == x:
+                continue
+            before = {id(n) for st in blk[:i + 1] for n in ast.walk(st)}
+            occ_t = [n for n in ast.walk(func) if isinstance(n, ast.Name) and n.id == t and n is not s.targets[0]]
+            occ_x = [n for n in ast.walk(func) if isinstance(n, ast.Name) and n.id == x and n is not s.value]
+            if any(id(n) in before for n in occ_t) or any(id(n) not in before for n in occ_x):
+                continue
+            if any(isinstance(n, (ast.Lambda, ast.FunctionDef)) and any(isinstance(m, ast.Name) and m.id in (t, x) for m in ast.walk(n))
+                   for st in blk for n in ast.walk(st) if n is not func):
+                continue
+            if any((isinstance(n, ast.arg) and n.arg == t) for st in blk[i:] for n in ast.walk(st)):
+                continue
+            tr = _Rename({t: x}, {})
+            for j in range(i + 1, len(blk)):
+                blk[j] = tr.visit(blk[j])
+            del blk[i]
+            self.log.append(f'N4 {path}::{qual}: new local {t} (a copy of {x}, which is dead afterwards) renamed back to {x}')
+            return True
         return False
 
     def _coalesce_path(self, path, qual, func, known, blk, j) -> bool:
@@ -1408,7 +1564,8 @@ def apply(modules: dict) -> list:
     for path, mod in modules.items():
         cur = names_of_module(mod.tree)
         ref = bm.get(path)
-        if ref is None or cur['consts'] != ref['consts'] or cur['funcs'] != ref['funcs'] or cur['kws'] != ref.get('kws'):
+        if ref is None or cur['consts'] != ref['consts'] or cur['funcs'] != ref['funcs'] or cur['kws'] != ref.get('kws') \
+                or cur['class_consts'] != ref.get('class_consts'):
             dirty = True
             break
     if not dirty:
